@@ -4,31 +4,49 @@ import GdVerif.Spec.Gs3Faults
 /-
   Driver entry `gs3plan`: the SPEC's plan script for one fault vector of the C10 check (see `Run/ValveFaults.lean`).
   `THM 1` = the hypotheses of `C10_gs3_query_faulty` / `C10_gs3_query_vars_faulty` hold.
+
+  Unit 0: faults at the handshake stage; unit 1: at the data stage, nothing of the reply arrives; unit 2 (replies of two or
+  more data packets): at the data stage the reply STOPS HALF WAY — a silent attempt still receives some of the data packets
+  (`gs3Got`: by position in the vector all but the last / only the first / all but the first in reverse order), a malformed
+  datagram arrives after such a selection.
 -/
 namespace Gd.Run
 open Gd Gd.Gs3 Gd.Gs3.Spec Gd.Faults
 
+/-- what the attempt at position `i` of the vector still receives of the reply `pool` before the silence / the malformed
+datagram, for unit 2 (nothing for the others) -/
+def gs3Got (unit i : Nat) (pool : List Bytes) : List Bytes :=
+  if unit < 2 then []
+  else if i % 3 == 0 then pool.take (pool.length - 1)
+  else if i % 3 == 1 then pool.take 1
+  else (pool.drop 1).reverse
+
 /-- read a vector as a plan for retry count `r`, faults at `stage`, and the letters left over -/
-def gs3PlanOfVector (r : Nat) (stage : Stage) : List Char → List Attempt → Plan × List Char
+def gs3PlanOfVector (r : Nat) (stage : Stage) (unit : Nat) (pool : List Bytes) :
+    List Char → List Attempt → Plan × List Char
   | [], fails => (⟨fails, .gaveUp⟩, [])
   | c :: rest, fails =>
     if fails.length == r + 1 then (⟨fails, .gaveUp⟩, c :: rest)
-    else if c == 'S' then gs3PlanOfVector r stage rest (fails ++ [⟨stage, false⟩])
-    else if c == 'F' then gs3PlanOfVector r stage rest (fails ++ [⟨stage, true⟩])
-    else if c == 'M' then (⟨fails, .malformed stage malformedDatagram⟩, rest)
+    else if c == 'S' then gs3PlanOfVector r stage unit pool rest (fails ++ [⟨stage, false, gs3Got unit fails.length pool⟩])
+    else if c == 'F' then gs3PlanOfVector r stage unit pool rest (fails ++ [⟨stage, true, []⟩])
+    else if c == 'M' then (⟨fails, .malformed stage (gs3Got unit fails.length pool) malformedDatagram⟩, rest)
     else (⟨fails, .valid⟩, rest)
 
-def gs3Leftover (cfg : Config) (arrival : List Bytes) (stage : Stage) (cs : List Char) : List Delivery × List Bool :=
-  cs.foldl (fun (acc : List Delivery × List Bool) c =>
+/-- deliveries / flags of the left-over letters (positions `i`, `i + 1`, … of the vector) -/
+def gs3Leftover (cfg : Config) (arrival : List Bytes) (stage : Stage) (unit : Nat) :
+    Nat → List Char → List Delivery × List Bool
+  | _, [] => ([], [])
+  | i, c :: rest =>
     let (d, f) :=
-      if c == 'S' then ((Attempt.mk stage false).deliveries cfg, (Attempt.mk stage false).faults)
-      else if c == 'F' then ((Attempt.mk stage true).deliveries cfg, (Attempt.mk stage true).faults)
-      else if c == 'M' then ((Ending.malformed stage malformedDatagram).deliveries cfg arrival,
-        (Ending.malformed stage malformedDatagram).faults)
+      if c == 'S' then ((Attempt.mk stage false (gs3Got unit i arrival)).deliveries cfg, (Attempt.mk stage false []).faults)
+      else if c == 'F' then ((Attempt.mk stage true []).deliveries cfg, (Attempt.mk stage true []).faults)
+      else if c == 'M' then ((Ending.malformed stage (gs3Got unit i arrival) malformedDatagram).deliveries cfg arrival,
+        (Ending.malformed stage [] malformedDatagram).faults)
       else (Ending.valid.deliveries cfg arrival, Ending.valid.faults)
-    (acc.1 ++ d, acc.2 ++ f)) ([], [])
+    let (d', f') := gs3Leftover cfg arrival stage unit (i + 1) rest
+    (d ++ d', f ++ f')
 
-/-- `gs3plan <seed> <k> <retries> <unit 0|1> <vector>` -/
+/-- `gs3plan <seed> <k> <retries> <unit 0|1|2> <vector>` -/
 def entryGs3Plan (args : List String) : String :=
   match args with
   | [seed, k, r, unit, vec] =>
@@ -43,10 +61,10 @@ def entryGs3Plan (args : List String) : String :=
       let entry := if vars then "gs3vars" else "gs3"
       let stage : Stage := if unit == 0 then .handshake else .data
       let arrival := dataPacketsX cfgX st
-      let (plan, left) := gs3PlanOfVector r stage vec.toList []
-      let (lq, lf) := gs3Leftover cfg arrival stage left
+      let (plan, left) := gs3PlanOfVector r stage unit arrival vec.toList []
+      let (lq, lf) := gs3Leftover cfg arrival stage unit (vec.length - left.length) left
       -- the whole-query theorem under faults is stated for replies without extra sections
-      let thm := Spec.wf cfg st && (extrasOf cfgX.layout.flatten).isEmpty && wfPlan r plan
+      let thm := Spec.wf cfg st && (extrasOf cfgX.layout.flatten).isEmpty && wfPlan r (dataPackets cfg st) plan
       let want := if vars then showRes showMap (faultyPackets cfg st plan >>= buildVars)
         else showRes showGs3Response (faultyExpected st plan)
       s!"{entry} {port} {r} {showDeliveries (faultyScript cfg plan arrival ++ lq)} f={showFaults (faultyFaults plan ++ lf)}"
